@@ -117,6 +117,9 @@ def translator_stage(c):
     c.count(1, kind='translator:inline-crosscheck')
     if got != want:
       c.tie_break('translator inlining vs model inlineSites', {'def': name, 'callee': i.callee}, want[:6], got[:6])
+  c.coverage_extra['not_executed'] = ['CMA_ES (evojax does not run under the installed jax): generic theorems + translator table cmaes.CMAESDesigner only']
+  c.flags['model_says_reproducible'] = {d: model_says_reproducible(verdict, d, summ)[0] for d in LABEL}
+  c.flags['model_says_seed_used'] = {d: bool(verdict.get(summ['designers'][LABEL[d]], {}).get('seed_used')) for d in LABEL}
   c.sample({'table': 'quasi_random.QuasiRandomDesigner', 'sites': [site_str(s) for s in summ['tables'].get('quasi_random.QuasiRandomDesigner', {'sites': []})['sites']]})
   return summ, verdict, not (main['threaded'] and side['threaded'])
 
@@ -249,23 +252,34 @@ def start_worker(cases, perturb, hashseed):
   env = dict(os.environ)
   env.update({'PYTHONHASHSEED': str(hashseed), 'JAX_PLATFORMS': 'cpu', 'TF_CPP_MIN_LOG_LEVEL': '3',
               'PYTHONDONTWRITEBYTECODE': '1', 'VERIF_REPO': core.REPO})
-  p = subprocess.Popen(['/venv/bin/python', '-W', 'ignore', os.path.abspath(W.__file__)], stdin=subprocess.PIPE,
-                       stdout=subprocess.PIPE, stderr=subprocess.PIPE, text=True, env=env)
-  p.stdin.write(json.dumps({'perturb': perturb, 'cases': cases}))
-  p.stdin.close()
+  # stdout / stderr go to temporary files: a pipe nobody drains would block a chatty worker
+  import tempfile
+  fin = tempfile.TemporaryFile('w+')
+  fin.write(json.dumps({'perturb': perturb, 'cases': cases}))
+  fin.seek(0)
+  fout, ferr = tempfile.TemporaryFile('w+'), tempfile.TemporaryFile('w+')
+  p = subprocess.Popen(['/venv/bin/python', '-W', 'ignore', os.path.abspath(W.__file__)], stdin=fin,
+                       stdout=fout, stderr=ferr, text=True, env=env)
+  p.c14_files = (fin, fout, ferr)
   return p
 
 
 def join_worker(p, n, timeout):
+  fin, fout, ferr = p.c14_files
   try:
-    out = p.stdout.read()
     p.wait(timeout=timeout)
   except subprocess.TimeoutExpired:
     p.kill()
     raise core.InfraError('C14 worker timed out')
+  fout.seek(0)
+  out = fout.read()
+  ferr.seek(0)
+  err = ferr.read()
+  for f in (fin, fout, ferr):
+    f.close()
   i = out.rfind('@@C14@@')
   if p.returncode != 0 or i < 0:
-    raise core.InfraError('C14 worker failed rc=%s: %s' % (p.returncode, (p.stderr.read() or out)[-800:]))
+    raise core.InfraError('C14 worker failed rc=%s: %s' % (p.returncode, (err or out)[-800:]))
   res = json.loads(out[i + 7:])
   if len(res['results']) != n:
     raise core.InfraError('C14 worker answered %d/%d cases' % (len(res['results']), n))
@@ -347,7 +361,10 @@ def dynamic_stage(c, level, summ, verdict, focus=None, tag='', cases=None):
     if 'error' in base:
       c.notes.append('%s seed=%s raised %s (both runs compared as errors)' % (name, case['seed'], base['error'][:120]))
     predicted, why = model_says_reproducible(verdict, d, summ)
+    obs = c.flags.setdefault('observed_reproducible', {})
+    obs.setdefault(name, True)
     if again != base:
+      obs[name] = False
       cause = attribute(case, base, singles)
       what = ('%s(seed=%s): two runs with the same seed, problem and history differ in-process; depends on: %s' % (
           LABEL[d] if kind == 'designer' else 'benchmark run with ' + LABEL[d], case['seed'], ' / '.join(cause) or 'the perturbed ambient (np.random, random, clock, unrelated study together)'))
@@ -386,6 +403,7 @@ def dynamic_stage(c, level, summ, verdict, focus=None, tag='', cases=None):
       c.count(1, kind='fresh-process:%s:%s' % (case['kind'], case['designer']))
       if fresh != base:
         d, kind = case['designer'], case['kind']
+        c.flags.setdefault('observed_reproducible', {})['%s:%s' % (kind, d)] = False
         what = ('%s(seed=%s): a fresh process (pid %s, PYTHONHASHSEED=%s, other global RNG state and clock, an unrelated study first) '
                 'does not reproduce the run of this process' % (
                     LABEL[d] if kind == 'designer' else 'benchmark run with ' + LABEL[d], case['seed'], res['pid'], res['hashseed']))
